@@ -166,7 +166,8 @@ Definition mismatches (hs : list hist) : list (nat * (nat * nat)) :=
     18 latest height lowered / not the maximum,
     19 accepted although the client was expired,
     21 proof honoured above the latest height, 22 against a height without consensus state,
-    23 before processed time + delay, 24 although the proof oracle rejected, 25 Verify* changed the store. *)
+    23 before processed time + delay, 24 although the proof oracle rejected, 25 Verify* changed the store
+    (26, 27: against the trace's own history, see [mon_verify_hist]). *)
 
 (** (key, power) list of a proto validator set, without any validation *)
 Definition plain_vals (vp : option pvalset) : list (pubkey * Z) :=
@@ -261,25 +262,65 @@ Definition mon_verify (pre post : store) (now : Z) (h : height) (proof_nil decod
       (if store_eqb pre post then [] else [25%nat])
   end.
 
-Definition mon_step (valid : bool) (pre : store) (o : ostep) : list nat :=
+(** ** The trace's own history: accepted writes, newest first.  [mon_verify_hist]
+    states the delay clause against the trace instead of against the stored
+    processed time: a proof honoured at height [h] must come at least the delay
+    after the step of THIS trace that last stored a header at [h], and the stored
+    consensus state must be that header's.  Kinds:
+    26 proof honoured before (block time of the last accepted header for that height) + delay,
+    27 the consensus state a proof was honoured against is not the last accepted header's. *)
+Record event := { ev_h : height; ev_cons : cons_state; ev_now : Z }.
+
+Definition latest_event (h : height) (log : list event) : option event :=
+  find (fun e => h_eqb (ev_h e) h) log.
+
+Definition ghost_step (log : list event) (o : ostep) : list event :=
+  match o with
+  | OUpdate now hdr _ _ _ _ _ _ keeper_class _ =>
+      if Nat.eqb keeper_class 0 then
+        match h_signed hdr with
+        | Some sh =>
+            match sh_header sh with
+            | Some h => {| ev_h := mkH (match parse_chain_id (hd_chain_id h) with Ok r => r | _ => 0%N end) (u64 (hd_height h));
+                           ev_cons := new_cons_state h; ev_now := now |} :: log
+            | None => log
+            end
+        | None => log
+        end
+      else log
+  | OVerify _ _ _ _ _ _ _ _ _ _ => log
+  end.
+
+Definition mon_verify_hist (log : list event) (pre : store) (now : Z) (h : height) : list nat :=
+  match client_of pre, latest_event h log with
+  | Some cs, Some e =>
+      (if Z.of_N (u64 (ev_now e)) + Z.of_N (cs_delay cs) <=? now then [] else [26%nat]) ++
+      (match sget (cons_key h) pre with
+       | Some (VCons c) => if cons_eqb c (ev_cons e) then [] else [27%nat]
+       | _ => [27%nat]
+       end)
+  | _, _ => []
+  end.
+
+Definition mon_step (valid : bool) (log : list event) (pre : store) (o : ostep) : list nat :=
   match o with
   | OUpdate now hdr ot _ _ _ _ _ keeper_class store_after =>
       if Nat.eqb keeper_class 0 then mon_update valid pre store_after now hdr ot
       else if store_eqb pre store_after then [] else [17%nat]
   | OVerify now h proof_nil _ _ _ decodes member v_class store_after =>
-      if Nat.eqb v_class 0 then mon_verify pre store_after now h proof_nil decodes member
+      if Nat.eqb v_class 0 then mon_verify pre store_after now h proof_nil decodes member ++ mon_verify_hist log pre now h
       else if store_eqb pre store_after then [] else [25%nat]
   end.
 
-Fixpoint mon_steps (valid : bool) (i : nat) (pre : store) (l : list ostep) : list (nat * nat) :=
+Fixpoint mon_steps (valid : bool) (i : nat) (log : list event) (pre : store) (l : list ostep) : list (nat * nat) :=
   match l with
   | [] => []
-  | o :: l' => map (fun k => (i, k)) (mon_step valid pre o) ++ mon_steps valid (S i) (step_store o) l'
+  | o :: l' => map (fun k => (i, k)) (mon_step valid log pre o) ++ mon_steps valid (S i) (ghost_step log o) (step_store o) l'
   end.
 
 Definition monitor_failures (hs : list hist) : list (nat * (nat * nat)) :=
   flat_map (fun ih => map (fun m => (fst ih, m))
-                          (mon_steps (Nat.eqb (hs_valid (snd ih)) 0) 0 (hs_init (snd ih)) (hs_steps (snd ih)))) (number 0 hs).
+                          (mon_steps (Nat.eqb (hs_valid (snd ih)) 0) 0 [] (hs_init (snd ih)) (hs_steps (snd ih)))) (number 0 hs).
 
 (** * Hex literals: the case files write byte strings as [hx "0a1b…"] (parsed
     far faster than list notation; decoded inside [vm_compute]) *)
